@@ -48,3 +48,42 @@ def run(ctx):
     items = build_items(ctx, rnd)
     results = common.pmap(speccheck.obligation, items, ctx.workers, extra=(N, live))
     summarise(ctx, results, N, live, 'gl')
+    match_cov = dict(ctx.coverage)
+    # walk side (E3): glob() / WcMatch results on symbolic trees containing dot entries and hidden links
+    from engine import fsdriver
+    from props import c05, c14
+    ctx.coverage = {}
+    fsdriver.run_property(ctx, walk_combos(ctx), 'c05_classify', 3000 if ctx.quick else 60000, lambda p: c05.describe(p) if isinstance(p[0][0], tuple) else c14.describe(p),
+                          known_from=('C05',))
+    walk_cov = ctx.coverage
+    ctx.coverage = match_cov
+    ctx.coverage['evaluations'] += walk_cov['evaluations']
+    ctx.coverage['distinct_nontrivial'] += walk_cov['distinct_nontrivial']
+    ctx.coverage['walk_side'] = {k: walk_cov[k] for k in ('evaluations', 'distinct_nontrivial', 'combos', 'solver_calls', 'solver_time_s', 'known_region_hits',
+                                                          'combos_not_exhausted_within_path_cap', 'traces_validated_against_impl', 'samples')}
+    ctx.coverage['exhaustive'] = ctx.coverage.get('exhaustive', True) and walk_cov.get('exhaustive', True)
+
+
+def walk_combos(ctx):
+    from wcmatch import glob as G, wcmatch as W
+    from props.c05 import seg, word, GS2, GS3, SL
+    from engine.gen import lit, Q, STAR
+    from engine import gen
+    S, L, F, D, E, MB, SD, NDD = G.GLOBSTAR, G.GLOBSTARLONG, G.FOLLOW, G.DOTGLOB, G.EXTGLOB, G.MATCHBASE, G.SCANDOTDIR, G.NODOTDIR
+    g = lambda kind, *alts: ('grp', kind, tuple(tuple(a) for a in alts))
+    asts = [(seg(STAR),), (GS2,), (GS2, SL, word('x')), (GS2, SL, seg(STAR)), (seg(STAR), SL, word('x')), (seg(Q, STAR),), (seg(gen.cls(1), STAR),), (seg(gen.cls(6), STAR),),
+            (seg(lit('.'), STAR),), (GS2, SL, seg(lit('.'), STAR)), (seg(lit('.'), STAR), SL, seg(STAR)), (word('x'),), (seg(STAR, lit('x')),), (seg(g('@', [STAR])),),
+            (seg(('neg', ((lit('a'),),))),), (word('a'), SL, seg(STAR)), (word('a'), SL, GS2), (GS3, SL, word('x')), (seg(STAR), SL, seg(STAR)), (seg(lit('.'), lit('d')), SL, seg(STAR)),
+            (GS2, SL, word('.d'), SL, word('x')), (word('.L'), SL, seg(STAR)), (seg(STAR), SL, word('..'), SL, seg(STAR)) if False else (word('a'), SL, seg(lit('.'), STAR))]
+    fsets = [S | E, S | E | F, S | E | D, S | E | MB, S | E | MB | F, L | E, L | E | F | MB, S | E | SD, S | E | D | SD, S | E | NDD | D]
+    out = []
+    for k, ast in enumerate(asts):
+        for f in (fsets if not ctx.quick else [fsets[0], fsets[1], fsets[2 + k % (len(fsets) - 2)], fsets[4]]):
+            for t in ('hid', 'hid2', 'dotlink', 'flat'):
+                out.append(('c05', t, (ast, f)))
+    R, H, SY = W.RECURSIVE, W.HIDDEN, W.SYMLINKS
+    for c in [(('*',), (), (), (), R), (('*',), (), (), (), R | SY), (('.*',), (), (), (), R), (('.*',), (), (), (), R | H), (('x',), (), (), (), R | SY),
+              (('*',), (), ('a',), (), R | SY), ((), (), (), (), R), ((), ('x',), (), (), R | SY)]:
+        for t in ('hid', 'hid2', 'dotlink', 'flat'):
+            out.append(('c14', t, c))
+    return out
